@@ -45,6 +45,8 @@ BIN = ["+", "-", "*", "/", "%", "&", "|", "^", "<<", ">>", "<", "<=", ">", ">=",
 
 
 # ties between the function bodies translated from the Rust source on every run (Gen/Fns.lean) and the hand-written models
+THEOREM_MODULES.append("Yarel.Props.SpecExpressions")
+REQUIRED_THEOREMS += ["binary_evaluates_left_first", "operand_value_schedules_next", "last_operand_applies_operator", "and_short_circuits", "or_short_circuits"]
 THEOREM_MODULES.append("Yarel.Props.FnsTie.VmSteps")
 REQUIRED_THEOREMS += ["vm_binary_op_numbers", "vm_binary_op_type_error", "vm_equal_effect", "vm_logical_not_effect", "vm_negate_number",
                       "vm_bitwise_not_number", "vm_negate_type_error", "vm_jump_if_false_effect"]
